@@ -365,6 +365,10 @@ FILE_NAME_CLASSES = [
     ('glob-characters', 'part[a-c]'),
     ('glob-characters', os.path.join('{abs}', 'star*and?mark')),
     ('glob-characters', 'export[1]'),
+    # a target on ANOTHER file system than the system's temporary directory (a mounted data volume; here /dev/shm when the machine has
+    # one on a different device): a file written somewhere else first cannot be renamed into place.  Not a REQUIRED class - whether a
+    # second file system exists depends on the machine; the evidence shows whether it was driven.
+    ('another-file-system', os.path.join('{otherfs}', 'volume file')),
 ]
 FILE_NAME_TAGS = ['file-name:' + c for c in ('relative-with-colons', 'blanks-and-non-ascii', 'url-characters', 'relative-in-a-subdirectory', 'leading-tilde-or-dash', 'glob-characters')]
 
@@ -377,11 +381,39 @@ def file_path(tmpdir, default_name, ext, selector, out=None):
         return os.path.join(tmpdir, default_name)
     if out is not None:
         out.tags.append('file-name:' + cls)
+    if '{otherfs}' in name:
+        other = _other_file_system()
+        if other is None:
+            return os.path.join(tmpdir, default_name)
+        name = name.replace('{otherfs}', other)
     path = name.replace('{abs}', tmpdir) + ext
     d = os.path.dirname(path)
     if d:
         os.makedirs(d if os.path.isabs(d) else os.path.join(tmpdir, d), exist_ok=True)
     return path
+
+
+_OTHER_FS = []
+
+
+def _other_file_system():
+    """-> a scratch directory on a file system other than tempfile.gettempdir()'s, or None"""
+    if not _OTHER_FS:
+        import atexit
+        import shutil
+        import tempfile
+        found = None
+        try:
+            here = os.stat(tempfile.gettempdir()).st_dev
+            for cand in ('/dev/shm', '/run/shm', os.path.expanduser('~'), '/var/tmp'):
+                if os.path.isdir(cand) and os.access(cand, os.W_OK) and os.stat(cand).st_dev != here:
+                    found = tempfile.mkdtemp(prefix='rxverif-', dir=cand)
+                    atexit.register(shutil.rmtree, found, True)
+                    break
+        except OSError:
+            found = None
+        _OTHER_FS.append(found)
+    return _OTHER_FS[0]
 
 
 class in_dir:
